@@ -1371,6 +1371,47 @@ class PathSens:
                         self._from_impls[(b.local_ty(1), b.local_ty(0))] = vs.pop()
         return self._from_impls.get((src_ty, dst_ty))
 
+    def _from_variant_map(self, src_ty, dst_ty):
+        """{source variant index: destination variant index} for a same-crate `impl From<src_ty> for dst_ty` that maps
+        each variant of its argument to one variant of the result (`Some(f) => Source::Known(f), None =>
+        Source::Detect`), found by exploring the impl's body once per source variant; {} when there is none."""
+        cache = getattr(self, "_from_maps", None)
+        if cache is None:
+            cache = self._from_maps = {}
+        key = (src_ty, dst_ty)
+        if key in cache:
+            return cache[key]
+        cache[key] = {}
+        for b in self.sup.crate.bodies:
+            if not (b.raw.get("impl_trait") == "std::convert::From" and b.name == "from" and b.nargs == 1 and b.local_ty(1) == src_ty and b.local_ty(0) == dst_ty):
+                continue
+            if src_ty.startswith("std::option::Option<") or src_ty.startswith("std::result::Result<"):
+                nvar = 2
+            else:
+                a = self.sup.crate.adts.get(src_ty.split("<")[0])
+                nvar = len(a["variants"]) if a and a.get("kind") == "enum" else 0
+            if not 1 <= nvar <= 6:
+                break
+            sub = Super(self.sup.crate, b, depth=1)
+            out = {}
+            for i in range(nvar):
+                ps2 = PathSens(sub)
+                reached = ps2.explore([(sub.entry, {((), 1): ("var", i)})])
+                got = set()
+                for rn in reached:
+                    if rn[0] or b.blocks[rn[1]]["term"]["k"] != "return":
+                        continue
+                    for st in reached[rn]:
+                        f_end = dict(st)
+                        for s_ in b.blocks[rn[1]]["stmts"]:
+                            ps2._stmt(f_end, (), s_)
+                        got.add(f_end.get(((), 0)))
+                if len(got) == 1 and None not in got and next(iter(got))[0] == "var" and not ps2.overflow:
+                    out[i] = next(iter(got))[1]
+            cache[key] = out
+            break
+        return cache[key]
+
     def _replace_info(self, body):
         """(targets, refs) for the `mem::replace(&mut X, v)` / `mem::take(&mut X)` calls of a body whose first
         argument is a fresh exclusive borrow of a plain local X made for that call alone (`r1 = &mut X;
@@ -1680,6 +1721,12 @@ class PathSens:
                     vi = self._from_variant(sty, body.local_ty(dest["l"])) if sty else None
                     if vi is not None:
                         f2[dkey] = ("var", vi)
+                    elif sty:
+                        af_ = self._operand_fact(facts, path, a0)[0]
+                        if af_ and af_[0] == "var":
+                            vm = self._from_variant_map(sty, body.local_ty(dest["l"]))
+                            if af_[1] in vm:
+                                f2[dkey] = ("var", vm[af_[1]])
                 if f and not dest["pr"]:
                     d = f["def"]
                     if d == "std::ops::Try::branch" and t["args"]:
@@ -2008,7 +2055,7 @@ def carriers(sup, node, local, extra_pass=()):
                             if k not in seen:
                                 seen.add(k)
                                 work.append(k)
-                    elif f and (f["def"] in FORWARD_PASS or any(p in f["def"] for p in extra_pass)) and 0 in argpos and not t["dest"]["pr"]:
+                    elif f and (f["def"] in FORWARD_PASS or any(p in f["def"] for p in extra_pass)) and (0 in argpos or (f["def"].endswith("::with_capacity") and 1 in argpos)) and not t["dest"]["pr"]:
                         k = (path, t["dest"]["l"])
                         if k not in seen:
                             seen.add(k)
